@@ -7,7 +7,7 @@
 //                   first too when g is empty.
 //  fault_sequences  frame(p1) || frame(p2) || frame(p3) with every single (thorough: every pair of) deletion,
 //                   substitution by each noise symbol, or insertion of each noise symbol, at every position
-//                   (deviation-bounded choice points).  Every frame not touched by a fault must come out; with
+//                   (fault bound 1 / 2, at most one fault per position).  Every frame not touched by a fault must come out; with
 //                   START == STOP only from the second frame after the last disturbed one ("from the second at the
 //                   latest"), a frame that does not fit counts as a disturbance for the frames after it.
 // Soundness / memory / overflow clauses are judged on every byte of every stream by the Monitor.
@@ -159,71 +159,60 @@ static void garbage_prefix_case(int codec)
     mc::more_cases(n - 1, interesting ? n - 1 : 0);
 }
 
-static void fault_case(int codec)
+// one fault sequence: `nf` slots (see fault_case) applied to frame(p0) frame(p1) frame(p2)
+struct FaultCtx
 {
-    gs::Markers M = gs::markers(codec);
-    static std::vector<uint8_t> A[gs::NCODEC];
-    if (A[codec].empty())
-        A[codec] = noise_alphabet(M);
-    const std::vector<uint8_t> &a = A[codec];
-    int k = (int)a.size();
-    std::vector<Bytes> P = payload_set(M);
-    int first = mc::choose(64 * 2);
-    mc::set_dev_bound(mc::thorough() ? 2 : 1);
-    int cap = CAPS[first & 1];
-    int t = first >> 1;
-    const Bytes *p[3] = {&P[t & 3], &P[(t >> 2) & 3], &P[(t >> 4) & 3]};
-    // original stream with the frame index of every byte
+    int codec, cap, k, per;
+    gs::Markers M;
+    const std::vector<uint8_t> *a;
+    const Bytes *p[3];
     Bytes orig;
     std::vector<int> owner;
-    for (int i = 0; i < 3; i++)
-    {
-        Bytes f = gsref::encode(M, *p[i]);
-        for (uint8_t c : f)
-        {
-            orig.push_back(c);
-            owner.push_back(i);
-        }
-    }
-    size_t L = orig.size();
+};
+static void run_faulted(const FaultCtx &x, int nf, const int *slot, const char *describe_head, const char *describe_tail)
+{
+    const std::vector<uint8_t> &a = *x.a;
+    const int k = x.k, per = x.per;
+    const size_t L = x.orig.size();
     bool touched[3] = {false, false, false};
     size_t fs[3] = {0, 0, 0}, fe[3] = {0, 0, 0};
     bool seen_first[3] = {false, false, false};
     Bytes s;
     std::string what;
-    int nfaults = 0;
+    const bool describe = describe_head != nullptr;
     for (size_t i = 0; i <= L; i++)
     {
         // fault at position i: 0 none | 1 delete | 2..k+1 substitute by a[j] | k+2..2k+1 insert a[j] before
-        int f = (i < L) ? mc::choose_dev(2 + 2 * k, 0) : mc::choose_dev(1 + k, 0);
-        if (i == L && f)
-            f += 1 + k; // only insertions after the last byte
-        bool boundary = i == L || i == 0 || owner[i] != owner[i - 1];
+        int f = 0;
+        for (int q = 0; q < nf; q++)
+            if (slot[q] / per == (int)i)
+                f = (i < L) ? 1 + slot[q] % per : k + 2 + slot[q] % per;
+        bool boundary = i == L || i == 0 || x.owner[i] != x.owner[i - 1];
         if (f >= k + 2)
         { // insertion before byte i
             s.push_back(a[f - k - 2]);
-            what += mc::fmt(" insert %02x before %zu;", a[f - k - 2], i);
-            nfaults++;
-            if (i < L && (!boundary || M.same()))
-                touched[owner[i]] = true; // between frames: garbage in front of the next frame (see header)
+            if (describe)
+                what += mc::fmt(" insert %02x before %zu;", a[f - k - 2], i);
+            if (i < L && (!boundary || x.M.same()))
+                touched[x.owner[i]] = true; // between frames: garbage in front of the next frame (see header)
         }
         if (i == L)
             break;
-        int o = owner[i];
+        int o = x.owner[i];
         if (f == 1)
         {
             touched[o] = true;
-            what += mc::fmt(" delete %zu;", i);
-            nfaults++;
+            if (describe)
+                what += mc::fmt(" delete %zu;", i);
             continue;
         }
-        uint8_t c = orig[i];
+        uint8_t c = x.orig[i];
         if (f >= 2 && f < k + 2 && a[f - 2] != c)
         {
             c = a[f - 2];
             touched[o] = true;
-            what += mc::fmt(" byte %zu -> %02x;", i, c);
-            nfaults++;
+            if (describe)
+                what += mc::fmt(" byte %zu -> %02x;", i, c);
         }
         if (!seen_first[o])
         {
@@ -233,29 +222,82 @@ static void fault_case(int codec)
         fe[o] = s.size();
         s.push_back(c);
     }
-    mc::describe("codec=%s cap=%d payloads %s|%s|%s faults:%s", gs::codec_name(codec), cap, gsref::hex(*p[0]).c_str(),
-                 gsref::hex(*p[1]).c_str(), gsref::hex(*p[2]).c_str(), what.empty() ? " none" : what.c_str());
-    if (nfaults)
-        mc::nontrivial();
-    Rig rig(codec, cap, !M.same());
+    if (describe)
+        mc::describe("%s%s%s", describe_head, what.empty() ? " none" : what.c_str(), describe_tail);
+    Rig rig(x.codec, x.cap, !x.M.same());
     Run run;
     feed_all(rig, s, run);
     int last_disturbed = -1;
     std::string oc;
     for (int i = 0; i < 3; i++)
     {
-        bool fits = (int)p[i]->size() + 1 <= cap - 1;
+        bool fits = (int)x.p[i]->size() + 1 <= x.cap - 1;
         bool required = !touched[i];
-        if (M.same() && last_disturbed >= 0 && last_disturbed > i - 2)
+        if (x.M.same() && last_disturbed >= 0 && last_disturbed > i - 2)
             required = false;
         if (required)
-            oc += expect_frame(rig, run, fs[i], fe[i], *p[i], "fault_sequences", "untouched_frame") ? "Y" : "N";
+            oc += expect_frame(rig, run, fs[i], fe[i], *x.p[i], "fault_sequences", "untouched_frame") ? "Y" : "N";
         else
             oc += "-";
         if (touched[i] || !fits)
             last_disturbed = i;
     }
-    mc::outcome(mc::fmt("%s %s deliveries=%zu", gs::codec_name(codec), oc.c_str(), run.deliveries.size()));
+    mc::outcome(mc::fmt("%s %s deliveries=%zu", gs::codec_name(x.codec), oc.c_str(), run.deliveries.size()));
+}
+
+static void fault_case(int codec)
+{
+    FaultCtx x;
+    x.codec = codec;
+    x.M = gs::markers(codec);
+    static std::vector<uint8_t> A[gs::NCODEC];
+    if (A[codec].empty())
+        A[codec] = noise_alphabet(x.M);
+    x.a = &A[codec];
+    x.k = (int)A[codec].size();
+    x.per = 1 + 2 * x.k;
+    std::vector<Bytes> P = payload_set(x.M);
+    int first = mc::choose(64 * 2);
+    x.cap = CAPS[first & 1];
+    int t = first >> 1;
+    x.p[0] = &P[t & 3], x.p[1] = &P[(t >> 2) & 3], x.p[2] = &P[(t >> 4) & 3];
+    for (int i = 0; i < 3; i++)
+    {
+        Bytes f = gsref::encode(x.M, *x.p[i]);
+        for (uint8_t c : f)
+        {
+            x.orig.push_back(c);
+            x.owner.push_back(i);
+        }
+    }
+    // fault slots, position-major: position i < L has 1 deletion, k substitutions, k insertions-before;
+    // position L (after the last byte) has k insertions.  A fault sequence = 0..bound slots at distinct, increasing
+    // positions.  Sequences of 0 or 1 faults are one case each; for two faults a case fixes the first and runs every
+    // second one in a loop.
+    const int N = (int)x.orig.size() * x.per + x.k;
+    int bound = mc::thorough() ? 2 : 1;
+    int nf = mc::choose(bound + 1);
+    int slot[2] = {-1, -1};
+    if (nf >= 1)
+        slot[0] = mc::choose(N);
+    std::string head = mc::fmt("codec=%s cap=%d payloads %s|%s|%s faults:", gs::codec_name(codec), x.cap, gsref::hex(*x.p[0]).c_str(),
+                               gsref::hex(*x.p[1]).c_str(), gsref::hex(*x.p[2]).c_str());
+    if (nf <= 1)
+    {
+        run_faulted(x, nf, slot, head.c_str(), "");
+        if (nf)
+            mc::nontrivial();
+        return;
+    }
+    int after = (slot[0] / x.per + 1) * x.per; // first slot of the next position
+    if (after >= N)
+        throw mc::Skip(); // no position left for a second fault: not a case
+    slot[1] = after;
+    run_faulted(x, 1, slot, head.c_str(), mc::fmt(" then every second fault at a later position (%d)", N - after).c_str());
+    mc::nontrivial();
+    for (slot[1] = after; slot[1] < N; slot[1]++)
+        run_faulted(x, 2, slot, nullptr, nullptr);
+    mc::more_cases((uint64_t)(N - after), (uint64_t)(N - after));
 }
 
 MC_INIT
